@@ -154,55 +154,7 @@ func checkC14(c *Ctx) {
 
 	// ---- C14.5 containment guards
 	r.Rule("C14.5", "address built only under offset < netSize; subnet match tests both bounds", 2)
-	// the base every offset is added to is the subnet's network address: a *net.IPNet in this package comes from
-	// net.ParseCIDR (which masks the address) or is built from a masked address
-	nNets := 0
-	for _, f := range c.funcsOfPkgs(ph) {
-		if strings.Contains(r.posStr(f.Pos()), "_test") {
-			continue
-		}
-		eachInstr(f, func(in ssa.Instruction) {
-			al, ok := in.(*ssa.Alloc)
-			if !ok || typeShort(al.Type().Underlying().(*types.Pointer).Elem()) != "net.IPNet" || al.Referrers() == nil {
-				return
-			}
-			for _, ref := range *al.Referrers() {
-				fa, ok := ref.(*ssa.FieldAddr)
-				if !ok || fieldName(fa.X.Type(), fa.Field) != "IP" || fa.Referrers() == nil {
-					continue
-				}
-				for _, r2 := range *fa.Referrers() {
-					st, ok := r2.(*ssa.Store)
-					if !ok || st.Addr != ssa.Value(fa) {
-						continue
-					}
-					nNets++
-					vp := pathOf(st.Val)
-					masked := strings.Contains(vp, ".Mask(") || strings.Contains(vp, ".Masked()") || (strings.Contains(vp, "net.ParseCIDR(") && strings.Contains(vp, ")#1"))
-					r.Check(masked, "C14.5", fnName(f)+": a subnet built by hand uses the masked network address", st.Pos(), fnName(f), firstN(vp, 60),
-						"a net.IPNet is built with IP = "+firstN(vp, 60)+", which is not masked to the prefix: for a CIDR written with host bits set (192.0.2.200/24) base+offset leaves the subnet although offset < size")
-				}
-			}
-		})
-	}
-	if f := c.fn("C14.5", ph, "", "parseSubnet"); f != nil {
-		eachInstr(f, func(in ssa.Instruction) {
-			ret, ok := in.(*ssa.Return)
-			if !ok || len(ret.Results) != 2 {
-				return
-			}
-			if e, isC := returnedValue(ret, 1, nil).(*ssa.Const); !isC || e.Value != nil {
-				return
-			}
-			rv := returnedValue(ret, 0, nil)
-			vp := pathOf(rv)
-			_, built := rv.(*ssa.Alloc)
-			okk := strings.HasPrefix(vp, "net.ParseCIDR(") && strings.HasSuffix(vp, "#1") || built
-			r.Check(okk, "C14.5", "parseSubnet: the subnet is net.ParseCIDR's network (or built from a masked address, checked above)", ret.Pos(), fnName(f), firstN(vp, 60),
-				"parseSubnet returns "+firstN(vp, 60)+", not the masked network of net.ParseCIDR")
-		})
-	}
-	_ = nNets
+	checkMaskedBase(c, "C14.5", ph)
 	if f := c.fn("C14.5", ph, "", "selectAddrFromSubnetOffset"); f != nil {
 		var add *ssa.Call
 		for _, ci := range callsIn(f, nameIs("(*math/big.Int).Add")) {
@@ -656,4 +608,60 @@ func checkSelectionPurity(c *Ctx, rule, ph string) {
 		}
 	}
 
+}
+
+// checkMaskedBase: the base every offset is added to is the subnet's network address - a *net.IPNet in the phantoms
+// package comes from net.ParseCIDR (which masks the address) or is built from a masked address. Shared by C14.5 and
+// C01.7 (a base that keeps host bits is not the base any released client adds the offset to).
+func checkMaskedBase(c *Ctx, rule, ph string) {
+	r := c.R
+	// the base every offset is added to is the subnet's network address: a *net.IPNet in this package comes from
+	// net.ParseCIDR (which masks the address) or is built from a masked address
+	nNets := 0
+	for _, f := range c.funcsOfPkgs(ph) {
+		if strings.Contains(r.posStr(f.Pos()), "_test") {
+			continue
+		}
+		eachInstr(f, func(in ssa.Instruction) {
+			al, ok := in.(*ssa.Alloc)
+			if !ok || typeShort(al.Type().Underlying().(*types.Pointer).Elem()) != "net.IPNet" || al.Referrers() == nil {
+				return
+			}
+			for _, ref := range *al.Referrers() {
+				fa, ok := ref.(*ssa.FieldAddr)
+				if !ok || fieldName(fa.X.Type(), fa.Field) != "IP" || fa.Referrers() == nil {
+					continue
+				}
+				for _, r2 := range *fa.Referrers() {
+					st, ok := r2.(*ssa.Store)
+					if !ok || st.Addr != ssa.Value(fa) {
+						continue
+					}
+					nNets++
+					vp := pathOf(st.Val)
+					masked := strings.Contains(vp, ".Mask(") || strings.Contains(vp, ".Masked()") || (strings.Contains(vp, "net.ParseCIDR(") && strings.Contains(vp, ")#1"))
+					r.Check(masked, rule, fnName(f)+": a subnet built by hand uses the masked network address", st.Pos(), fnName(f), firstN(vp, 60),
+						"a net.IPNet is built with IP = "+firstN(vp, 60)+", which is not masked to the prefix: for a CIDR written with host bits set (192.0.2.200/24) base+offset leaves the subnet although offset < size")
+				}
+			}
+		})
+	}
+	if f := c.fn(rule, ph, "", "parseSubnet"); f != nil {
+		eachInstr(f, func(in ssa.Instruction) {
+			ret, ok := in.(*ssa.Return)
+			if !ok || len(ret.Results) != 2 {
+				return
+			}
+			if e, isC := returnedValue(ret, 1, nil).(*ssa.Const); !isC || e.Value != nil {
+				return
+			}
+			rv := returnedValue(ret, 0, nil)
+			vp := pathOf(rv)
+			_, built := rv.(*ssa.Alloc)
+			okk := strings.HasPrefix(vp, "net.ParseCIDR(") && strings.HasSuffix(vp, "#1") || built
+			r.Check(okk, rule, "parseSubnet: the subnet is net.ParseCIDR's network (or built from a masked address, checked above)", ret.Pos(), fnName(f), firstN(vp, 60),
+				"parseSubnet returns "+firstN(vp, 60)+", not the masked network of net.ParseCIDR")
+		})
+	}
+	_ = nNets
 }
